@@ -278,6 +278,15 @@ func annoCases(c *core.Ctx) []annoCase {
 		{name: "reverse joined gene, segment lengths 5+7",
 			gff: []*eval.StructVal{mkGFFFeature(c, "CDS", 2, 8, "-", 1, A("ID", "c1", "Name", "g1")), mkGFFFeature(c, "CDS", 14, 18, "-", 0, A("ID", "c1", "Name", "g1"))},
 			gb:  []gbFeature{{"CDS", "complement(join(2..8,14..18))", "g1", 1}}},
+		{name: "reverse joined gene written as a join of complements",
+			gff: []*eval.StructVal{mkGFFFeature(c, "CDS", 2, 8, "-", 1, A("ID", "c1", "Name", "g1")), mkGFFFeature(c, "CDS", 14, 18, "-", 0, A("ID", "c1", "Name", "g1"))},
+			gb:  []gbFeature{{"CDS", "join(complement(14..18),complement(2..8))", "g1", 1}}},
+		{name: "two genes whose GFF rows carry a Name but no ID",
+			gff: []*eval.StructVal{mkGFFFeature(c, "CDS", 1, 9, "+", 0, A("Name", "g1")), mkGFFFeature(c, "CDS", 13, 21, "+", 0, A("Name", "g2"))},
+			gb:  []gbFeature{{"CDS", "1..9", "g1", 1}, {"CDS", "13..21", "g2", 1}}},
+		{name: "a reverse and a forward gene whose GFF rows carry no ID",
+			gff: []*eval.StructVal{mkGFFFeature(c, "CDS", 4, 12, "-", 0, A("Name", "g1")), mkGFFFeature(c, "CDS", 13, 21, "+", 0, A("Name", "g2"))},
+			gb:  []gbFeature{{"CDS", "complement(4..12)", "g1", 1}, {"CDS", "13..21", "g2", 1}}},
 		{name: "partial gene starting in frame 2",
 			gff: []*eval.StructVal{mkGFFFeature(c, "CDS", 3, 12, "+", 1, A("ID", "c1", "Name", "g1"))},
 			gb:  []gbFeature{{"CDS", "3..12", "g1", 2}}},
